@@ -301,39 +301,6 @@ def proof_step(prop, tier):
     return info
 
 
-def regenerate_and_prove():
-    """translate obtain_latters / obtain_formers from the current source and re-check the equivalence proofs"""
-    import tempfile
-    import translate
-    out = {"applies": True, "generated": False, "proved": False}
-    os.makedirs(os.path.join(VERIF, "work"), exist_ok=True)
-    work = tempfile.mkdtemp(prefix="gen-", dir=os.path.join(VERIF, "work"))
-    try:
-        try:
-            out["functions"] = translate.generate(REPO, os.path.join(work, "KmerGen.v"))
-            out["generated"] = True
-        except translate.Refuse as e:
-            out["refused"] = str(e)
-            return out
-        except Exception as e:  # noqa  (syntax error in the source etc.)
-            out["refused"] = repr(e)
-            return out
-        with open(os.path.join(COQ, "Generated", "KmerGenProofs.v")) as f:
-            open(os.path.join(work, "KmerGenProofs.v"), "w").write(f.read())
-        log = ""
-        for fn in ("KmerGen.v", "KmerGenProofs.v"):
-            rc, o = _run(["timeout", "300", "coqc", "-Q", COQ, "DSW", "-Q", work, "DSWGen", os.path.join(work, fn)], 400, work)
-            log += o
-            if rc != 0:
-                out["log"] = log
-                return out
-        out["proved"] = log.count("Closed under the global context") == 2
-        out["log"] = log[-300:]
-        return out
-    finally:
-        subprocess.call(["rm", "-rf", work])
-
-
 # --------------------------------------------------------------------------------- findings
 def load_known():
     p = os.path.join(VERIF, "KNOWN_FINDINGS.json")
@@ -357,20 +324,22 @@ def run_property(prop, tier, seed, replay=None):
     tie = sourcetie.check(REPO, tie_roots) if (tie_roots and replay is None) else []
     # ---- functions whose model is REGENERATED from the current source (harness/translate.py): when the regenerated definitions
     #      are proved equal to the hand-written model, a fingerprint difference of those functions is a harmless rewrite
-    regen = {"applies": False}
+    regen = {"applies": False, "units": []}
     if tie_roots and replay is None:
-        import translate
+        import regen as regen_mod
         funcs_now, _ = sourcetie.scan(REPO)
         cone_now = sourcetie.closure(tie_roots, funcs_now)
-        if any(f in cone_now for f in translate.FUNCS):
-            regen = regenerate_and_prove()
-            if regen.get("proved"):
-                tie = [d for d in tie if not any(("source of %s " % f) in d for f in translate.FUNCS)]
-            elif regen.get("generated"):
+        for uname in regen_mod.units_for(cone_now):
+            r = regen_mod.run_unit(uname, REPO)
+            regen["applies"] = True
+            regen["units"].append({k: v for k, v in r.items() if k != "log"})
+            if r.get("proved"):
+                tie = [d for d in tie if not any(("source of %s " % f) in d for f in r["functions"])]
+            elif r.get("generated"):
                 proof["ok"] = False
                 proof.setdefault("messages", []).append(
-                    "the model regenerated from the current source of obtain_latters / obtain_formers is no longer proved equal to "
-                    "Kmer.obtain_latters / Kmer.obtain_formers (coq/Generated/KmerGenProofs.v): " + regen.get("log", "")[-400:])
+                    "the model regenerated from the current source of %s is no longer proved equal to the hand-written model "
+                    "(coq/Generated/%s): %s" % (", ".join(r["functions"]), r.get("failed_file", "?"), r.get("log", "")[-400:]))
     # ---- cases: corpus first, then generated
     cases = []
     if replay is not None:
@@ -517,7 +486,7 @@ def run_property(prop, tier, seed, replay=None):
                                    list(getattr(prop, "MODEL_FUNCTIONS", [])), "model_error": model_error},
             "oracle": {"evaluations": oracle_evals, "failures": len(failures), "new_failures": len(new_failures),
                        "searched_after_break": searched},
-            "regenerated_model": {k: v for k, v in regen.items() if k != "log"},
+            "regenerated_model": regen,
             "source_tie": {"roots": tie_roots, "differences": tie,
                            "rule": "SHA-256 of the docstring-free AST of every dsw function reachable from the roots, and of the "
                                    "module-level code of their files, compared with harness/fingerprints.json"},
@@ -555,9 +524,12 @@ def run_property(prop, tier, seed, replay=None):
 def shrink_failure(prop, failure):
     """greedy shrinking: accept any smaller payload on which the oracle still fails"""
     cur = failure
+    t_end = time.time() + float(os.environ.get("VERIF_SHRINK_SECONDS", "60"))
     for _ in range(200):
         progressed = False
         for payload in prop.shrink(cur["stream"], cur["payload"]):
+            if time.time() > t_end:
+                return cur
             try:
                 c = prop.build(cur["stream"], payload)
                 a, r = c.impl()
